@@ -409,6 +409,21 @@ theorem quiescent_partial_no_assertion (fuel : Nat) (ev : Match.Ev) (s s' : VM) 
     ∧ (∀ k nm, reg s'.ixs.ix k = some nm → ∃ i, findInst s'.ixs.ix k.1 = some i ∧ (i.findHead k.2).isSome) :=
   quiescent_partial fuel ev s s' (no_stopping_at_exit fuel ev s s' h0 h).2
 
+/-- **`corevm_no_stopping`**: in every state of a run of the model — `initialize_state`, then any number of external events
+    processed by `runToCompletion` (any fuel, tie-breaks, clock) — no instance is STOPPING. -/
+theorem corevm_no_stopping (p : Prog) (s : VM) (h : Reach p s) : NoStopping s.ixs.ix := reach_no_stopping p s h
+
+/-- **`corevm_index_exact`**: hence, in EVERY state of a run of the model (after `initialize_state` and after each external
+    event), the dispatch index equals the from-scratch scan as multisets — no hypothesis left: `IndexOK` holds by
+    construction of the index component (the model stops instead of applying an operation whose guard fails), `NoStopping`
+    by `no_stopping_at_exit`. -/
+theorem corevm_index_exact (p : Prog) (s : VM) (h : Reach p s) (nm : String) (k : Key) :
+    (bucket s.ixs.ix nm).count k = (scan s.ixs.ix).count (nm, k) :=
+  quiescent_partial_index s (reach_no_stopping p s h) nm k
+
+/-- non-vacuity: a normal return of `initialize_state` is a reachable state -/
+example (p : Prog) (s : VM) (h : initializeState ({ r := { prog := p } } : VM) = .ok () s) : Reach p s := .init s h
+
 /-! ## `Parked` / `PendingCovers` — definitions and the part carried so far (phase 4) -/
 
 /-- with an empty worklist, the worklist invariant is the `Parked` clause of the property -/
